@@ -15,6 +15,8 @@ import WacModel.Spec.Cli
             obs
     targets <component> <wit> <--world or empty> <loadable> <nW> (<world> <conforms 0|1>)*nW  obs
     parse   <source> <J<json token> | ->  obs
+    tty     <wat> <-o or empty> <lib TT> <exit> <output is text+newline 0|1> <output empty 0|1> <output mentions error 0|1> <file>
+            (`wac compose` of the succeeding composition with a pty as stdout; judged against `emitRun … isTerminal := true`)
 
   SPEC = the documented behaviour (WacModel/Spec/Cli.lean) evaluated on the library results;
   MODEL = the plan/run model of the command (WacModel/Cli.lean, driven by the generated tables).
@@ -202,6 +204,35 @@ def judgeParse : P String := do
     return s!"MODEL\tparse: model=[{showObs model}] observed=[{showRaw o}]"
   return "ok"
 
+/-- `wac compose` with a terminal as stdout (run under `script`): stdout and stderr arrive merged,
+    so the comparison is on exit status, "the output is exactly the text and a newline",
+    "nothing was printed", "an error was printed" and the output file. -/
+def judgeTty : P String := do
+  let _tag ← next
+  let wat ← nextBool
+  let output ← next
+  let lib := parseLib (← next)
+  let exit ← next
+  let isText ← nextBool
+  let isEmpty ← nextBool
+  let hasError ← nextBool
+  let file ← next
+  let sink : Sink := match optStr output with | some p => .file p | none => .stdout
+  let model := emitRun generated wat sink lib true true
+  let okExit := exit == (toString model.exit).toList
+  let okOut :=
+    if model.exit != 0 then hasError
+    else match sink with
+      | .stdout => isText          -- only reachable with -t: the text and one newline
+      | .file _ => isEmpty
+  let okFile := match model.file with
+    | none => file == ['-']
+    | some (_, tok) => file == 'F' :: tok
+  if okExit && okOut && okFile then return "ok"
+  -- the guard is documented by its own diagnostic ("cannot print binary wasm output to a
+  -- terminal; pass the `-t` flag …"): a difference is a concrete failing run
+  return s!"SPEC\ttty: expected=[{showObs model}] observed=[exit={String.ofList exit} text={isText} empty={isEmpty} error={hasError} file={String.ofList file}]"
+
 def judge (fs : List (List Char)) : String :=
   match fs with
   | k :: rest =>
@@ -210,6 +241,7 @@ def judge (fs : List (List Char)) : String :=
       else if k == "plug".toList then some judgePlug
       else if k == "targets".toList then some judgeTargets
       else if k == "parse".toList then some judgeParse
+      else if k == "tty".toList then some judgeTty
       else none
     match p with
     | none => "BAD\tunknown kind"
